@@ -115,13 +115,16 @@ theorem finish_decode_fixedSizeBinary0_false :
 
 /-- **dictionary placeholder.**  Without `Faithful` the statement is false for a dictionary slot holding the dummy
 key 0 while no value has been pushed: `into_array` appends the placeholder value `""`, so the finished slot reads
-the empty string while the state holds no value for it (`dec` reads null).  Such slots are only written by
-`serialize_default`, i.e. hidden under a null parent. -/
+the empty string while the state holds no value for it (`dec` reads null).  The witness is a reachable state: one
+`serialize_default` (what a null parent struct issues) into a fresh non-nullable `Dictionary(UInt32, Utf8)` builder.
+(Stated operationally, without `WFB`: a state invariant may or may not admit such hidden slots.) -/
 theorem finish_decode_dictionary_dummy_false :
-    ∃ (b : B) (a : Arr), WFB b ∧ finish {} b = .ok a ∧ decodeAll a ≠ (dec b).map .ok :=
-  ⟨.dictionary "$.a" (.leaf "$.a.key" (.int .u32) none [0]) (.bytes "$.a.value" .utf8 none [0] []) [],
+    ∃ (b0 b : B) (a : Arr), newDT "$.a" (.dictionary .uint32 .utf8) false [] = .ok b0 ∧ pushDefault b0 = .ok b ∧
+      finish {} b = .ok a ∧ decodeAll a ≠ (dec b).map .ok :=
+  ⟨.dictionary "$.a" (.leaf "$.a.key" (.int .u32) none []) (.bytes "$.a.value" .utf8 none [0] []) [],
+   .dictionary "$.a" (.leaf "$.a.key" (.int .u32) none [0]) (.bytes "$.a.value" .utf8 none [0] []) [],
    .dictionary (.prim .uint32 none [0]) (.bytes .utf8 none [0, 0] []),
-    by simp [WFB, VLen, OffsOK, dec, maskNull, leafVal, pairs],
+    by decide, by decide,
     by
       have hp : pushScalar {} (.bytes "$.a.value" .utf8 none [0] []) (.str "") =
           .ok (.bytes "$.a.value" .utf8 none [0, 0] []) := by
